@@ -929,7 +929,10 @@ func (d *dealer) syncCall(caller *wamp.Session, msg *wamp.Call) {
 	//
 	// The error message that is returned to the Caller MUST use
 	// wamp.error.timeout as the reason URI.
-	if timeout > 0 {
+	// The timeout is for the whole call and runs from its first CALL message:
+	// later chunks of a progressive call invocation do not start another timer
+	// (which nothing would ever stop when the call completes).
+	if timeout > 0 && invk.timerCancel == nil {
 		// A timeout that does not fit into a time.Duration must not wrap
 		// around into a short or negative one.
 		const maxTimeout = int64(math.MaxInt64 / int64(time.Millisecond))
